@@ -5,7 +5,7 @@ Gemini URLs according to the protocol specification.
 """
 
 from typing import NamedTuple
-from urllib.parse import urlparse, urlunparse
+from urllib.parse import unquote, urlparse, urlunparse
 
 from ..protocol.constants import DEFAULT_PORT, MAX_REQUEST_SIZE
 
@@ -108,6 +108,43 @@ def parse_url(url: str) -> ParsedURL:
         fragment=parsed.fragment or "",
         normalized=normalized,
     )
+
+
+def canonical_path(path: str) -> str:
+    """Reduce a URL path to the canonical form used for access decisions.
+
+    Percent-escapes are decoded, ``.`` and ``..`` segments are resolved and
+    repeated slashes are collapsed, so that every spelling of a path that the
+    file handlers resolve to the same resource is also judged as that resource.
+    A trailing slash is preserved.
+
+    Args:
+        path: The path component of a URL.
+
+    Returns:
+        The canonical path, always starting with '/'.
+
+    Examples:
+        >>> canonical_path('//private/./x/../secret.gmi')
+        '/private/secret.gmi'
+        >>> canonical_path('/%70rivate/')
+        '/private/'
+    """
+    decoded = unquote(path)
+    segments: list[str] = []
+    for segment in decoded.split("/"):
+        if segment in ("", "."):
+            continue
+        if segment == "..":
+            if segments:
+                segments.pop()
+            continue
+        segments.append(segment)
+
+    canonical = "/" + "/".join(segments)
+    if segments and decoded.endswith(("/", "/.", "/..")):
+        canonical += "/"
+    return canonical
 
 
 def validate_url(url: str) -> None:
